@@ -17,6 +17,11 @@ import PyrollModel.Proto
           <roots>   = name,name,… (`-` = none)      names of the root hooks of the out profile's class
           <out>     = `N` (no out profile yet) | entries      <tmpl> = entries of the incoming profile
           entries   = name=value,name=value,… (`-` = none; values are naturals = identities)
+      parts <Class>               → <hosts in evaluation order> <hosts in concatenation order> <memos absent after reevaluate_cache>
+          (comma separated, `-` = none)   `get_root_hook_results` / `reevaluate_cache` of a roll-pass class; memos:
+          `_contour_lines`, `roll._contour_line`, both present before the call, remembered hook values reading them
+      memo <Class> <pass|roll> <n> <stale 0|1> → i,i,…   which iteration's input (0-based; 999 = what a stale memo held) the
+          pass contour (`pass`) / the roll's contour line (`roll`) used in each of `n` consecutive loop bodies was built from
 -/
 namespace SolveDriver
 open Proto Solve
@@ -92,6 +97,20 @@ def handle (line : String) : String :=
     let rs := if roots = "-" then [] else roots.splitOn ","
     match (if out = "N" then some none else (entries? out).map some), entries? tmpl with
     | some o, some t => showEntries (SolveGen.initOut rs o t)
+    | _, _ => "bad-op"
+  | ["parts", cls] =>
+    let sh := fun (l : List String) => if l.isEmpty then "-" else ",".intercalate l
+    let sv := SolveBody.survivors (SolveGen.cacheProgram cls)
+    let gone := (if sv.1 then [] else ["_contour_lines"]) ++ (if sv.2 == .none then ["roll._contour_line"] else [])
+    s!"{sh (SolveGen.evalParts cls)} {sh (SolveGen.resultParts cls)} {sh gone}"
+  | ["memo", cls, which, n, stale] =>
+    match nat? n, nat? stale with
+    | some k, some st =>
+      let used := SolveBody.usedGeometries (fun (i : Nat) => i) (fun (i r : Nat) => (i, r)) (SolveGen.cacheProgram cls)
+        ((List.range k).map fun i => { rollMid := i, rollNew := i, passMid := i, passNew := i })
+        (if st != 0 then { pm := some (999, 999), rm := some 999, rv := 999, pv := 999 }
+         else { pm := none, rm := none, rv := 999, pv := 999 })
+      if used.isEmpty then "-" else ",".intercalate (used.map fun t => toString (if which = "roll" then t.2.1 else t.1.1))
     | _, _ => "bad-op"
   | ["sub", outcomes] =>
     let os := if outcomes = "-" then [] else outcomes.splitOn ","
